@@ -214,6 +214,10 @@ def run(prog: Program, chk: Check):
             return
         seen.add(key)
         params = f.params()
+        if isinstance(p, ast.Name) and p.id not in params:
+            pc = guards_copy(f.node).get(p.id)
+            if isinstance(pc, ast.Constant):
+                p = pc  # `no_data = b""; send_message(h, no_data)`
         hp, pp = path_of(h), path_of(p)
         site = " -> ".join(chain + [f"{f.qual}:{norm(call)}"])
         if isinstance(h, ast.Name) and isinstance(p, ast.Name) and h.id in params and p.id in params:
